@@ -1,5 +1,6 @@
 (* Proofs/SenseProps.v — totality and positions of sense decoding, for EVERY byte string. *)
 From Coq Require Import String.
+From PS Require Import Model.SenseStep.
 From PS Require Import Base.Bytes Base.Result Model.Converter Model.Command Model.Enum Model.Exec Model.Sense.
 From PS Require Import Proofs.Codec Proofs.Layout Gen.Tables Gen.SenseTables Gen.Misc Spec.SenseFmt.
 Set Default Timeout 60.
@@ -70,18 +71,35 @@ Definition dispatch_entry_ok (d : list N * layout * string * string) : bool :=
   && match lookup ak L, lookup qk L, lookup "sense_key" L with
      | Some (Mask _ _), Some (Mask _ _), Some (Mask _ _) => true | _, _, _ => false end.
 
+(* the regenerated steps of _describe_ascq end in a text for every code: a step that always answers (a default, a plain text) is
+   reached before any strict lookup and before the end of the function *)
+Fixpoint steps_total (steps : list ascq_step) : bool :=
+  match steps with
+  | [] => false
+  | AGetDefault _ :: _ | AText _ :: _ => true
+  | AStrict :: _ | AUnknownStep :: _ => false
+  | _ :: r => steps_total r
+  end.
+
+Lemma steps_total_ok steps a q : steps_total steps = true -> exists t, describe_steps steps a q = Ok t.
+Proof.
+  induction steps as [|s r IH]; [discriminate|]. destruct s; cbn [steps_total describe_steps]; intros H; try discriminate; eauto.
+  - destruct (lookupN (a * 256 + q) sense_ascq_dict); eauto.
+  - destruct (in_range vendor_specific_sense_asc a); eauto.
+  - destruct (in_range vendor_specific_sense_ascq q); eauto.
+Qed.
+
 (* construction and description never raise *)
 Definition sense_total_ok : bool :=
-  forallb dispatch_entry_ok sense_dispatch && sense_str_guard
-  && match sense_key_default, sense_ascq_default, sense_init_asc, sense_init_ascq with
-     | Some _, Some _, Some _, Some _ => true | _, _, _, _ => false end.
+  forallb dispatch_entry_ok sense_dispatch && sense_str_guard && steps_total sense_ascq_steps
+  && match sense_key_default, sense_init_asc, sense_init_ascq with
+     | Some _, Some _, Some _ => true | _, _, _ => false end.
 
 Theorem sense_total : sense_total_ok = true ->
   forall s, s <> [] -> exists c d, sense_new s = Ok c /\ describe c = Ok d.
 Proof.
-  unfold sense_total_ok. intros H s Hs. apply andb_prop in H as [H Hdef]. apply andb_prop in H as [Hdisp Hguard].
+  unfold sense_total_ok. intros H s Hs. apply andb_prop in H as [H Hdef]. apply andb_prop in H as [H Hsteps]. apply andb_prop in H as [Hdisp Hguard].
   destruct sense_key_default as [kd|] eqn:Ekd; [|discriminate].
-  destruct sense_ascq_default as [ad|] eqn:Ead; [|discriminate].
   destruct sense_init_asc as [ia|] eqn:Eia; [|discriminate].
   destruct sense_init_ascq as [iq|] eqn:Eiq; [|discriminate].
   destruct s as [|b0 s']; [congruence|]. unfold sense_new.
@@ -105,10 +123,8 @@ Proof.
     destruct Ia as [a ->]. destruct Iq as [q ->]. destruct Ik as [k ->]. rewrite Hva, Hvq.
     assert (D : exists d0, describe (mkCC (N.land b0 127) d (Some a) (Some q)) = Ok d0).
     { unfold describe. cbn [cc_data cc_asc cc_ascq cc_rc]. rewrite Hvk, Ekd.
-      unfold describe_ascq. rewrite Ead.
-      destruct (lookupN k sense_key_dict);
-        destruct (in_range vendor_specific_sense_asc a); destruct (in_range vendor_specific_sense_ascq q);
-        destruct (lookupN (a * 256 + q) sense_ascq_dict); eexists; reflexivity. }
+      unfold describe_ascq. destruct (steps_total_ok sense_ascq_steps a q Hsteps) as [t ->].
+      destruct (lookupN k sense_key_dict); eexists; reflexivity. }
     destruct D as [d0 D]. exists (mkCC (N.land b0 127) d (Some a) (Some q)), d0. split; [reflexivity|exact D].
   - eexists. eexists. split; [reflexivity|]. unfold describe. cbn [cc_data lookup]. now rewrite Hguard.
 Qed.
@@ -175,3 +191,8 @@ Fixpoint upper (s : string) : string :=
 Definition texts_ok : bool :=
   forallb (fun e : N * string => match lookupN (fst e) sense_ascq_dict with
                                  | Some t => String.eqb (upper t) (upper (snd e)) | None => false end) t10_asc_subset.
+
+(* an assigned code is DESCRIBED by its T10 text (the regenerated steps of _describe_ascq reach the table before anything else answers) *)
+Definition described_ok : bool :=
+  forallb (fun e : N * string => match describe_ascq (fst e / 256) (fst e mod 256) with
+                                 | Ok t => String.eqb (upper t) (upper (snd e)) | Raise _ => false end) t10_asc_subset.
